@@ -2772,3 +2772,7 @@ mod tests {
         assert_eq!(&packets[0].names, &expected_names);
     }
 }
+
+#[cfg(feature = "verif-hooks")]
+#[path = "verif/parser.rs"]
+pub mod verif_hooks;
